@@ -131,7 +131,8 @@ func histObs(p rtcp.Packet, ops []*Sx) *Sx {
 		seen[key] = cur
 		results = append(results, res)
 	}
-	return sl(sl(sy("results"), sl(results...)), sl(sy("consistent"), sbool(consistent)), sl(sy("final"), packetSx(p)))
+	return sl(sl(sy("results"), sl(results...)), sl(sy("consistent"), sbool(consistent)), sl(sy("final"), packetSx(p)),
+		sl(sy("backing"), sbool(spareUntouched())))
 }
 
 // containsXR: ExtendedReport.Marshal fills in its blocks' header fields (documented), so String() of a
@@ -159,7 +160,24 @@ func inbufObs(b []byte) *Sx {
 	copy(back[8:], b)
 	before := append([]byte(nil), back...)
 	in := back[8 : 8+len(b) : 8+len(b)+8]
-	guard(func() *Sx { _, _ = rtcp.Unmarshal(in); return nil })
+	guard(func() *Sx {
+		// decode, then use the decoded packets (they may alias the input): none of it may write to the buffer
+		ps, err := rtcp.Unmarshal(in)
+		if err == nil {
+			for _, p := range ps {
+				p := p
+				guard(func() *Sx {
+					_, _ = p.Marshal()
+					_ = p.MarshalSize()
+					_ = p.DestinationSSRC()
+					_ = stringOf(p)
+					return nil
+				})
+			}
+			guard(func() *Sx { _, _ = rtcp.Marshal(ps); return nil })
+		}
+		return nil
+	})
 	for _, name := range []string{"CompoundPacket"} {
 		decByNameNoCopy(name, in)
 	}
